@@ -1,8 +1,374 @@
-"""C07 — bounded run-time contracts only so far (proof obligations for the atom index table are added in build())."""
-from contracts._bounded_only import make_main
+"""C07 — a molecular grid is the weighted concatenation of its atomic grids (DESIGN 8/C07).
 
-main = make_main("C07", ["bounded layer only: real functions under executable postconditions on a generated family (rtc/C07.py); nothing is proved"])
+MolGrid.__init__ is executed symbolically for a symbolic number M of atomic grids (a list of symbolic length of grid objects with symbolic
+sizes N_a, centres, points relative to the centre, weights) under a loop contract (functional cut point): after k atoms
+    indices[j] = OFF(j) (j <= k), atcoords[a] = centre_a (a < k), points[j] / atweights[j] = the concatenation CAT(j) for j < OFF(k)
+where OFF are the prefix offsets of the sizes and CAT(OFF(a)+t) = (points of atom a)[t] by definition.  Post: the public points are the atomic
+grids' public points in order, delimited by the index table; weights = atomic weights x atom-in-molecule weights (array given, or the callable
+applied to (points, atcoords, atnums, indices)); size/type checks; atomic grids kept iff store.
+get_atomic_grid / __getitem__: the stored atomic grid, or without store a LocalGrid with exactly that atom's public points, atomic weights and
+centre (same data either way).  from_size / from_preset / from_pruned hand per-atom arguments to AtomGrid / AtomGrid.from_preset /
+AtomGrid.from_pruned and the resulting list to the constructor (two atoms instantiated; the loop body is per atom).
+The end-to-end 1 % clause and default radial grids are decided by the bounded layer only.
+"""
+from __future__ import annotations
+
+import z3
+
+from pyvc import framework
+from pyvc import interp as I
+from pyvc import lazyseq as LZ
+from pyvc import npmodel as M
+from pyvc import terms as T
+
+IS, RS = z3.IntSort(), z3.RealSort()
+MOD = "grid.molgrid"
+FQ_INIT = f"{MOD}.MolGrid.__init__"
+Mn = z3.Int("n_atoms")
+N = z3.Function("atom_size", IS, IS)
+CC = z3.Function("atom_centre", IS, IS, RS)
+AP = z3.Function("atom_point_rel", IS, IS, IS, RS)     # (atom, t, c): stored (centre-relative) points of the atomic grid
+AWT = z3.Function("atom_weight", IS, IS, RS)
+OFF = z3.Function("off", IS, IS)
+CATP = z3.Function("cat_point", IS, IS, RS)
+CATW = z3.Function("cat_weight", IS, RS)
+AIM = z3.Function("aim_weight", IS, RS)
+ZN = z3.Function("atnum", IS, RS)
+g0, t0, j0, a0 = z3.Ints("g0 t0 j0 a0")
+
+
+def atom_obj(eng, a):
+    a = T.zi(a)
+    o = I.Obj(eng.get_class("grid.atomgrid", "AtomGrid"))
+    o.fields.update(_points=I.Arr((N(a), 3), lambda t, c, a=a: AP(a, T.zi(t), T.zi(c)), "real"),
+                    _weights=I.Arr((N(a),), lambda t, a=a: AWT(a, T.zi(t)), "real"),
+                    _center=I.Arr((3,), lambda c, a=a: CC(a, T.zi(c)), "real"), _size=N(a), _kdtree=None, _atom_index=a)
+    return o
+
+
+def cat_axioms(pairs):
+    """Definition of the concatenation at the given (atom, row) pairs + prefix offsets of positive sizes."""
+    out = [OFF(0) == 0]
+    for a, t in pairs:
+        a, t = T.zi(a), T.zi(t)
+        inside = z3.And(a >= 0, a < Mn, t >= 0, t < N(a))
+        out.append(z3.Implies(inside, z3.And(*[CATP(OFF(a) + t, c) == AP(a, t, c) + CC(a, c) for c in range(3)], CATW(OFF(a) + t) == AWT(a, t))))
+        out.append(z3.Implies(z3.And(a >= 0, a < Mn), z3.And(OFF(a + 1) == OFF(a) + N(a), N(a) >= 1, OFF(a) >= 0, OFF(a + 1) <= OFF(Mn))))
+    return out
+
+
+def constructor(chk):
+    eng = chk.eng
+    for aim_kind in ("array", "callable"):
+        for store in (True, False):
+            name = f"__init__/aim-{aim_kind}/store-{store}"
+            rep = {"what": "constructor", "aim": aim_kind, "store": store}
+            calls = []
+
+            def thunk(eng_, aim_kind=aim_kind, store=store, calls=calls):
+                del calls[:]
+                eng_.assume(z3.And(Mn >= 1))
+                _i = z3.Int("i_any")
+                eng_.assume(z3.ForAll([_i], N(_i) >= 1))
+                for ax in cat_axioms([(g0, t0)]):
+                    eng_.add_axiom(ax)
+                atgrids = LZ.SymList(Mn, lambda a: atom_obj(eng_, a), scalar=False)
+                atnums = I.Arr((Mn,), lambda a: ZN(T.zi(a)), "real")
+                total = OFF(Mn)
+
+                def fields(fr):
+                    return fr.selfobj.fields
+
+                def inv(fr, kk):
+                    kk = T.zi(kk)
+                    f = fields(fr)
+                    ind, atc, pts, atw = f["_indices"], f["_atcoords"], f["_points"], f["_atweights"]
+                    return z3.And(
+                        z3.BoolVal(ind.ndim == 1 and atc.ndim == 2 and pts.ndim == 2 and atw.ndim == 1),
+                        T.zi(ind.shape[0]) == Mn + 1, T.zi(atc.shape[0]) == Mn, T.zi(pts.shape[0]) == total, T.zi(atw.shape[0]) == total,
+                        z3.Implies(z3.And(j0 >= 0, j0 <= Mn), T.zi(ind.fn(j0)) == z3.If(j0 <= kk, OFF(j0), 0)),
+                        z3.Implies(z3.And(a0 >= 0, a0 < Mn), z3.And(*[T.zr(atc.fn(a0, c)) == z3.If(a0 < kk, CC(a0, c), 0) for c in range(3)])),
+                        z3.Implies(z3.And(j0 >= 0, j0 < total), z3.And(*[T.zr(pts.fn(j0, c)) == z3.If(j0 < OFF(kk), CATP(j0, c), 0) for c in range(3)],
+                                                                       T.zr(atw.fn(j0)) == z3.If(j0 < OFF(kk), CATW(j0), 0))))
+
+                def havoc(fr, nm, old):
+                    if nm != "<self>":
+                        return None
+                    k = spec.k
+                    f = fields(fr)
+                    f["_indices"].fn = lambda j, k=k: z3.If(T.zi(j) <= k, OFF(T.zi(j)), z3.IntVal(0))
+                    f["_atcoords"].fn = lambda a, c, k=k: z3.If(T.zi(a) < k, cc(a, c), z3.RealVal(0))
+                    f["_points"].fn = lambda j, c, k=k: z3.If(T.zi(j) < OFF(k), catp(j, c), z3.RealVal(0))
+                    f["_atweights"].fn = lambda j, k=k: z3.If(T.zi(j) < OFF(k), CATW(T.zi(j)), z3.RealVal(0))
+                    # the concatenation is defined at the row the new slice puts under the generic position j0
+                    for ax in cat_axioms([(k, j0 - OFF(k))]):
+                        fr.eng.add_axiom(ax)
+                    return None
+
+                def cc(a, c):
+                    return M.select_const(c, [lambda x=x: CC(T.zi(a), x) for x in range(3)]) if T.is_sym(c) else CC(T.zi(a), c)
+
+                def catp(j, c):
+                    return M.select_const(c, [lambda x=x: CATP(T.zi(j), x) for x in range(3)]) if T.is_sym(c) else CATP(T.zi(j), c)
+                spec = I.LoopSpec(inv, havoc=havoc, name="atoms", modifies=["<self>"])
+                eng_.loop_specs[(FQ_INIT, 1)] = spec
+                try:
+                    if aim_kind == "array":
+                        aim = I.Arr((total,), lambda j: AIM(T.zi(j)), "real")
+                    else:
+                        def aim_call(eng__, *args):
+                            calls.append(args)
+                            return I.Arr((total,), lambda j: AIM(T.zi(j)), "real")
+                        aim = I.Model("aim", aim_call)
+                    g = eng_.new_object(eng_.get_class(MOD, "MolGrid"), atnums, atgrids, aim, store=store)
+                    fr = I.Frame(eng_, g.cls.module, I.Env(), g.cls, g, "harness")
+                    return g, atgrids, atnums, fr.getattr(g, "points"), fr.getattr(g, "weights"), list(calls)
+                finally:
+                    eng_.loop_specs.pop((FQ_INIT, 1), None)
+            nund = len(chk.undecided)
+            outs = chk.explore(name, thunk, func=FQ_INIT)
+            if len(chk.undecided) == nund:
+                ok = any(o.kind == "return" for o in outs) and any(o.kind == "end" for o in outs) and not any(o.kind == "raise" for o in outs)
+                chk.add(f"{name}/paths/loop-exit-and-loop-step-explored-no-raise", [], z3.BoolVal(ok), func=FQ_INIT,
+                        meta={"replay": rep, "paths": str(sorted({(o.kind, o.note, o.exc) for o in outs}, key=str))})
+            ps = framework.PrefixSum("sizes", lambda k: N(T.zi(k)), sort="int")
+            for oi, o in enumerate(outs):
+                kv = [u for u in T.subterms(z3.And(*[h for h in o.pc if T.is_sym(h)] + [z3.BoolVal(True)])).values() if z3.is_const(u) and u.decl().name().startswith("k!")]
+                defs = cat_axioms([(g0, t0)] + [(k, j0 - OFF(k)) for k in kv] + [(j0 - 1, 0)])
+                # the total size: the code's sum of the atomic sizes is matched against the prefix sum OFF
+                eqs = []
+                seen = set()
+                for ob in o.obligations:
+                    if not T.is_sym(ob.goal):
+                        continue
+                    for app in framework.find_sites(z3.And(ob.goal, *[h for h in ob.hyps if T.is_sym(h)])):
+                        if app.get_id() in seen or framework.site_of(app).kind != "sum":
+                            continue
+                        seen.add(app.get_id())
+                        eqs.append(framework.match_sum(chk, f"{name}/path{oi}/total-size", app, ps, 0, Mn - 1, list(o.pc), func=FQ_INIT, meta={"replay": rep},
+                                                       assumptions=list(o.assumptions)))
+                link = [ps.P(0) == 0, ps.P(Mn) == OFF(Mn)]       # OFF is the prefix sum of the sizes (same recurrence, same start)
+                for ob in o.obligations:
+                    ob.hyps = list(ob.hyps) + defs + eqs + link
+                chk.add_from_path(f"{name}/path{oi}", o, func=FQ_INIT, meta={"replay": rep})
+                if o.kind in ("return", "end"):
+                    chk.canary(name, list(o.pc))
+                if o.kind != "return":
+                    continue
+                g, atgrids, atnums, pts, wts, cl = o.value
+                f = g.fields
+                hy = list(o.pc) + defs + eqs + link
+                asm = list(o.assumptions)
+                seg = [g0 >= 0, g0 < Mn, t0 >= 0, t0 < N(g0)]
+                ind = f["_indices"]
+                pos = T.zi(ind.fn(g0)) + t0
+                chk.add(f"{name}/post/points-are-the-atomic-grids-public-points-in-order-at-the-table-offset", hy + seg,
+                        z3.And(T.zi(pts.shape[0]) == OFF(Mn), *[T.zr(pts.fn(pos, c)) == AP(g0, t0, c) + CC(g0, c) for c in range(3)]), func=FQ_INIT,
+                        meta={"replay": rep}, assumptions=asm)
+                chk.add(f"{name}/post/weights-are-atomic-weights-times-atom-in-molecule-weights", hy + seg,
+                        z3.And(T.zi(wts.shape[0]) == OFF(Mn), T.zr(wts.fn(pos)) == AWT(g0, t0) * AIM(OFF(g0) + t0), T.zr(f["_atweights"].fn(pos)) == AWT(g0, t0),
+                               T.zr(f["_aim_weights"].fn(pos)) == AIM(OFF(g0) + t0)), func=FQ_INIT, meta={"replay": rep}, assumptions=asm)
+                chk.add(f"{name}/post/index-table-is-the-prefix-sum-of-the-atomic-sizes", hy + [j0 >= 0, j0 <= Mn],
+                        z3.And(T.zi(ind.shape[0]) == Mn + 1, T.zi(ind.fn(j0)) == OFF(j0)), func=FQ_INIT, meta={"replay": rep}, assumptions=asm)
+                chk.add(f"{name}/post/atomic-coordinates-are-the-grid-centres", hy + [a0 >= 0, a0 < Mn],
+                        z3.And(*[T.zr(f["_atcoords"].fn(a0, c)) == CC(a0, c) for c in range(3)]), func=FQ_INIT, meta={"replay": rep}, assumptions=asm)
+                chk.add(f"{name}/post/atomic-grids-kept-iff-store", [], z3.BoolVal((f["_atgrids"] is atgrids) if store else (f["_atgrids"] is None)), func=FQ_INIT,
+                        meta={"replay": rep})
+                chk.add(f"{name}/post/tree-attribute-initialised", [], z3.BoolVal(f.get("_kdtree", 0) is None), func=FQ_INIT, meta={"replay": rep})
+                if aim_kind == "callable":
+                    okc = len(cl) == 1 and len(cl[0]) == 4 and cl[0][0] is f["_points"] and cl[0][1] is f["_atcoords"] and cl[0][2] is atnums and cl[0][3] is f["_indices"]
+                    chk.add(f"{name}/post/aim-callable-gets-points-atcoords-atnums-indices", [], z3.BoolVal(bool(okc)), func=FQ_INIT, meta={"replay": rep})
+
+    # aim weights of the wrong size / type
+    def bad(eng_, kind):
+        eng_.assume(Mn >= 1)
+        _i = z3.Int("i_any")
+        eng_.assume(z3.ForAll([_i], N(_i) >= 1))
+        atgrids = [atom_obj(eng_, 0), atom_obj(eng_, 1)]
+        atnums = I.Arr((2,), lambda a: ZN(T.zi(a)), "real")
+        aim = I.Arr((N(0) + N(1) + 1,), lambda j: AIM(T.zi(j)), "real") if kind == "size" else [1.0, 2.0]
+        return eng_.new_object(eng_.get_class(MOD, "MolGrid"), atnums, atgrids, aim)
+    for kind, exc in (("size", "ValueError"), ("type", "TypeError")):
+        outs = chk.explore(f"__init__/bad-aim-{kind}", lambda e, kind=kind: bad(e, kind), func=FQ_INIT)
+        chk.add(f"__init__/raises/aim-weights-of-wrong-{kind}", [], z3.BoolVal(bool(outs) and all(o.kind == "raise" and o.exc == exc for o in outs)), func=FQ_INIT,
+                meta={"replay": {"what": "constructor"}, "paths": str([(o.kind, o.exc, o.note) for o in outs])})
+
+
+def molgrid_obj(eng, store):
+    """A molecular grid as the constructor leaves it (postconditions proved above)."""
+    total = OFF(Mn)
+    g = I.Obj(eng.get_class(MOD, "MolGrid"))
+    atgrids = LZ.SymList(Mn, lambda a: atom_obj(eng, a), scalar=False)
+    g.fields.update(_indices=I.Arr((Mn + 1,), lambda j: OFF(T.zi(j)), "int"),
+                    _atcoords=I.Arr((Mn, 3), lambda a, c: CC(T.zi(a), T.zi(c)), "real"),
+                    _points=I.Arr((total, 3), lambda j, c: CATP(T.zi(j), T.zi(c)), "real"),
+                    _atweights=I.Arr((total,), lambda j: CATW(T.zi(j)), "real"),
+                    _aim_weights=I.Arr((total,), lambda j: AIM(T.zi(j)), "real"),
+                    _weights=I.Arr((total,), lambda j: CATW(T.zi(j)) * AIM(T.zi(j)), "real"),
+                    _atgrids=atgrids if store else None, _kdtree=None)
+    return g, atgrids
+
+
+def atomic_grid_access(chk):
+    eng = chk.eng
+    for meth in ("get_atomic_grid", "__getitem__"):
+        fq = f"{MOD}.MolGrid.{meth}"
+        for store in (True, False):
+            name = f"{meth}/store-{store}"
+            rep = {"what": "atomic", "method": meth, "store": store}
+
+            def thunk(eng_, meth=meth, store=store):
+                eng_.assume(z3.And(Mn >= 1, g0 >= 0, g0 < Mn, t0 >= 0, t0 < N(g0)))
+                for ax in cat_axioms([(g0, t0)]):
+                    eng_.add_axiom(ax)
+                g, atgrids = molgrid_obj(eng_, store)
+                return eng_.call_method(g, meth, g0), atgrids
+            outs = chk.explore(name, thunk, func=fq)
+            rets = [o for o in outs if o.kind == "return"]
+            chk.add(f"{name}/post/returns-on-every-path", [], z3.BoolVal(bool(rets) and len(rets) == len(outs)), func=fq,
+                    meta={"replay": rep, "paths": str([(o.kind, o.exc, o.note) for o in outs])})
+            for oi, o in enumerate(rets):
+                res, atgrids = o.value
+                hy = list(o.pc)
+                asm = list(o.assumptions)
+                chk.add_from_path(f"{name}/path{oi}", o, func=fq, meta={"replay": rep})
+                if store:
+                    same = isinstance(res, I.Obj) and res.cls.name == "AtomGrid" and T.is_sym(res.fields.get("_atom_index")) is not None
+                    chk.add(f"{name}/post/the-stored-atomic-grid-of-that-atom", hy, z3.And(z3.BoolVal(bool(same)), T.zi(res.fields["_atom_index"]) == g0) if same else z3.BoolVal(False),
+                            func=fq, meta={"replay": rep}, assumptions=asm)
+                    continue
+                ok = isinstance(res, I.Obj) and res.cls.name == "LocalGrid"
+                if not ok:
+                    chk.add(f"{name}/post/local-grid-of-that-atom", hy, z3.BoolVal(False), func=fq, meta={"replay": rep})
+                    continue
+                p, w, c = res.fields["_points"], res.fields["_weights"], res.fields["_center"]
+                chk.add(f"{name}/post/local-grid-has-the-atoms-public-points-atomic-weights-and-centre", hy,
+                        z3.And(T.zi(p.shape[0]) == N(g0), T.zi(w.shape[0]) == N(g0), *[T.zr(p.fn(t0, x)) == AP(g0, t0, x) + CC(g0, x) for x in range(3)],
+                               T.zr(w.fn(t0)) == AWT(g0, t0), *[T.zr(c.fn(x)) == CC(g0, x) for x in range(3)]), func=fq, meta={"replay": rep}, assumptions=asm)
+                chk.canary(name, hy)
+
+    def t_neg(eng_):
+        eng_.assume(z3.And(Mn >= 1, g0 < 0))
+        g, _ = molgrid_obj(eng_, True)
+        return eng_.call_method(g, "get_atomic_grid", g0)
+    outs = chk.explore("get_atomic_grid/negative", t_neg, func=f"{MOD}.MolGrid.get_atomic_grid")
+    chk.add("get_atomic_grid/raises/negative-index", [], z3.BoolVal(bool(outs) and all(o.kind == "raise" and o.exc == "ValueError" for o in outs)),
+            func=f"{MOD}.MolGrid.get_atomic_grid", meta={"replay": {"what": "atomic"}})
+
+
+def fan_out(chk):
+    """from_size / from_pruned / from_preset: per-atom arguments reach the atomic constructors, their results (in order) and the molecular
+    arguments reach MolGrid (two atoms; AtomGrid, its class methods and MolGrid through recording contracts)."""
+    eng = chk.eng
+    ZA = [z3.Int("Z0"), z3.Int("Z1")]
+    XY = [[z3.Real(f"R{a}{c}") for c in range(3)] for a in range(2)]
+    rotv = z3.Int("rotate")
+    sizev = z3.Int("size")
+    rec = {"atom": [], "mol": []}
+
+    def atom_contract(kind):
+        def c(eng_, f, args, kwargs):
+            args = [x for k_, x in enumerate(args) if not (k_ == 0 and isinstance(x, I.ClassRef))]      # class methods: drop cls
+            rec["atom"].append((kind, list(args), dict(kwargs)))
+            o = I.Obj(eng_.get_class("grid.atomgrid", "AtomGrid"))
+            o.fields["_made"] = len(rec["atom"]) - 1
+            return o
+        return c
+
+    def mol_contract(eng_, f, args, kwargs):
+        rec["mol"].append((list(args), dict(kwargs)))
+        o = I.Obj(eng_.get_class(MOD, "MolGrid"))
+        o.fields["_made"] = True
+        return o
+
+    def run(eng_, which):
+        rec["atom"].clear()
+        rec["mol"].clear()
+        eng_.callee_contracts["grid.atomgrid.AtomGrid"] = atom_contract("init")
+        eng_.callee_contracts["grid.atomgrid.AtomGrid.from_preset"] = atom_contract("from_preset")
+        eng_.callee_contracts["grid.atomgrid.AtomGrid.from_pruned"] = atom_contract("from_pruned")
+        eng_.callee_contracts[f"{MOD}.MolGrid"] = mol_contract
+        try:
+            cls = eng_.get_class(MOD, "MolGrid")
+            fr = I.Frame(eng_, cls.module, I.Env(), cls, None, "harness")
+            atnums = I.Arr((2,), lambda a: M.select_const(a, [lambda v=v: v for v in ZA]), "int")
+            atcoords = I.Arr((2, 3), lambda a, c: M.select_const(a, [lambda a_=a_: M.select_const(c, [lambda v=v: v for v in XY[a_]]) for a_ in range(2)]), "real")
+            rg = I.Obj(eng_.get_class("grid.basegrid", "OneDGrid"))
+            rg.fields.update(_points=I.Arr((z3.Int("nr"),), lambda i: z3.Function("r", IS, RS)(T.zi(i)), "real"),
+                             _weights=I.Arr((z3.Int("nr"),), lambda i: z3.Function("wr", IS, RS)(T.zi(i)), "real"), _domain=None, _kdtree=None)
+            aim = I.Opaque("aim", call=True)
+            if which == "from_size":
+                res = eng_.call(fr.getattr(cls, "from_size"), [atnums, atcoords, sizev], {"rgrid": rg, "aim_weights": aim, "rotate": rotv, "store": True})
+            elif which == "from_preset":
+                res = eng_.call(fr.getattr(cls, "from_preset"), [atnums, atcoords, "fine"], {"rgrid": rg, "aim_weights": aim, "rotate": rotv, "store": True})
+            else:
+                res = eng_.call(fr.getattr(cls, "from_pruned"), [atnums, atcoords, [z3.Real("rad0"), z3.Real("rad1")], [["rs0"], ["rs1"]]],
+                                {"d_sectors": [["ds0"], ["ds1"]], "rgrid": rg, "aim_weights": aim, "rotate": rotv, "store": True})
+            return res, list(rec["atom"]), list(rec["mol"]), rg, aim, atnums
+        finally:
+            for k in ("grid.atomgrid.AtomGrid", "grid.atomgrid.AtomGrid.from_preset", "grid.atomgrid.AtomGrid.from_pruned", f"{MOD}.MolGrid"):
+                eng_.callee_contracts.pop(k, None)
+
+    def coord_ok(v, a):
+        return isinstance(v, I.Arr) and v.ndim == 1, [T.zr(v.fn(c)) == XY[a][c] for c in range(3)] if isinstance(v, I.Arr) and v.ndim == 1 else []
+
+    for which in ("from_size", "from_preset", "from_pruned"):
+        fq = f"{MOD}.MolGrid.{which}"
+        rep = {"what": "fanout", "ctor": which}
+        outs = chk.explore(f"{which}/two-atoms", lambda e, which=which: run(e, which), func=fq)
+        rets = [o for o in outs if o.kind == "return"]
+        chk.add(f"{which}/post/returns-on-every-path", [], z3.BoolVal(bool(rets) and len(rets) == len(outs)), func=fq,
+                meta={"replay": rep, "paths": str([(o.kind, o.exc, o.note) for o in outs])})
+        for oi, o in enumerate(rets):
+            res, atoms, mols, rg, aim, atnums = o.value
+            hy = list(o.pc)
+            goals = []
+            struct = len(atoms) == 2 and len(mols) == 1
+            if struct:
+                for a, (kind, args, kw) in enumerate(atoms):
+                    if which == "from_size":
+                        okk = kind == "init" and args and args[0] is rg and kw.get("degrees", 0) is None and isinstance(kw.get("sizes"), list) and len(kw["sizes"]) == 1
+                        struct = struct and bool(okk)
+                        if okk:
+                            goals.append(T.zi(kw["sizes"][0]) == sizev)
+                    elif which == "from_preset":
+                        okk = kind == "from_preset" and kw.get("preset") == "fine" and kw.get("rgrid") is rg
+                        struct = struct and bool(okk)
+                        if okk:
+                            goals.append(T.zi(M.unwrap(kw["atnum"])) == ZA[a])
+                    else:
+                        okk = kind == "from_pruned" and args and args[0] is rg and kw.get("r_sectors") == [f"rs{a}"] and kw.get("d_sectors") == [f"ds{a}"] and kw.get("s_sectors", 0) is None
+                        struct = struct and bool(okk)
+                        if okk:
+                            goals.append(T.zr(args[1]) == z3.Real(f"rad{a}"))
+                    okc, eqs = coord_ok(kw.get("center"), a)
+                    struct = struct and okc and T.is_sym(kw.get("rotate")) and kw["rotate"].eq(rotv)
+                    goals += eqs
+                margs, mkw = mols[0]
+                lst = margs[1] if len(margs) > 1 else None
+                struct = struct and margs and margs[0] is atnums and isinstance(lst, list) and len(lst) == 2 and all(isinstance(x, I.Obj) and x.fields.get("_made") == i for i, x in enumerate(lst)) \
+                    and (margs[2] if len(margs) > 2 else mkw.get("aim_weights")) is aim and mkw.get("store") is True and isinstance(res, I.Obj) and res.fields.get("_made") is True
+            chk.add(f"{which}/post/per-atom-arguments-reach-the-atomic-constructor-and-the-grids-reach-MolGrid-in-order", hy, z3.And(z3.BoolVal(bool(struct)), *goals), func=fq,
+                    meta={"replay": rep})
 
 
 def build(chk):
-    return None
+    constructor(chk)
+    atomic_grid_access(chk)
+    fan_out(chk)
+
+
+def main(tier="quick", seed=0, bounded=True, proof=True):
+    chk = framework.Check("C07", tier, seed, level="proof")
+    chk.trusted += [
+        "floats are reals (no rounding)",
+        "atomic grids enter as objects with the representation AtomGrid.__init__ leaves (C05): size >= 1, centre, centre-relative points, weights",
+        "the concatenation CAT of the atomic public points / weights is defined by CAT(OFF(a)+t) = part_a(t) with OFF the prefix offsets of the sizes; "
+        "finite-sum algebra of the reduction matcher (the code's total size against OFF(M))",
+        "atom-in-molecule weights: an array or the result of the caller's callable (Becke/Hirshfeld content is C06)",
+        "fan-out of the convenience constructors is proved for two atoms (the loop bodies are per atom); default radial grids and the end-to-end 1% "
+        "clause are bounded only",
+    ]
+    if proof:
+        build(chk)
+    return chk.finish(bounded_args=[] if bounded else None)
